@@ -5,7 +5,7 @@
    the header writers and validate_extra_data.  Every call returns the (possibly partially mutated) state
    together with its result, because Rust's `?` leaves the mutations made so far in place.
    Compressors are an oracle [enc]; every panic site is a [Panic] outcome.
-   The model follows the tree AFTER the fix: commits D1 D7 D8 D9 D11 D15 (see known_findings.txt). *)
+   The model follows the tree AFTER the fix: commits D1 D7 D8 D9 D11 D15 D17 D18 D19 (see known_findings.txt). *)
 From Coq Require Import ZArith.
 From ZipV Require Import Base.Bytes Base.Outcome Gen.GenLib Gen.SpecGen Gen.CompressionGen Gen.TypesGen
      Gen.ZipCryptoGen Gen.WriteGen Model.Cp437 Model.Readers Model.Reader Spec.Utf8.
@@ -60,6 +60,12 @@ Definition dev_seek (d : dev) (pos : N) : dev * res unit :=
 Definition dev_pos (d : dev) : dev * res N :=            (* stream_position = seek(Current(0)) *)
   match dev_event d with
   | (d1, Ok _) => (d1, Ok (d_pos d1))
+  | (d1, Err e) => (d1, Err e)
+  | (d1, Panic p) => (d1, Panic p)
+  end.
+Definition dev_seek_end (d : dev) : dev * res N :=        (* seek(SeekFrom::End(0)) *)
+  match dev_event d with
+  | (d1, Ok _) => ({| d_buf := d_buf d1; d_pos := len (d_buf d1); d_plan := d_plan d1 |}, Ok (len (d_buf d1)))
   | (d1, Err e) => (d1, Err e)
   | (d1, Panic p) => (d1, Panic p)
   end.
@@ -412,18 +418,21 @@ Section Writer.
   Record wopts := { o_method : CompressionMethod; o_level : option Z; o_time : DateTime; o_perm : option N;
                     o_large : bool; o_encrypt : option bytes }.
 
+  Definition mk_wfile (name : bytes) (o : wopts) (raw : option (N * N * N)) (header_start : N) : wfile :=
+    let '(rc, rcs, rus) := match raw with Some v => v | None => (0, 0, 0) end in
+    let perm := match o_perm o with Some p => p | None => 33188 end in     (* 0o100644 *)
+    {| w_system := 3; w_made_by := DEFAULT_VERSION; w_encrypted := opt_is_some (o_encrypt o);
+       w_method := o_method o; w_level := o_level o; w_time := o_time o; w_crc := rc; w_csize := rcs; w_usize := rus;
+       w_name := name; w_extra := []; w_header_start := header_start; w_data_start := 0;
+       w_ext_attr := (perm * 65536) mod 2 ^ 32; w_large := o_large o |}.
+
   Definition start_entry (s : wstate) (name : bytes) (o : wopts) (raw : option (N * N * N)) : wstate * res unit :=
     if 65535 <? len name then (s, Err (EInvalid MTooLong)) else            (* fix D1 *)
     match finish_file s with
     | (s1, Ok _) =>
         match with_plain s1 dev_pos with
         | (s2, Ok header_start) =>
-            let '(rc, rcs, rus) := match raw with Some v => v | None => (0, 0, 0) end in
-            let perm := match o_perm o with Some p => p | None => 33188 end in     (* 0o100644 *)
-            let f := {| w_system := 3; w_made_by := DEFAULT_VERSION; w_encrypted := opt_is_some (o_encrypt o);
-                        w_method := o_method o; w_level := o_level o; w_time := o_time o; w_crc := rc; w_csize := rcs; w_usize := rus;
-                        w_name := name; w_extra := []; w_header_start := header_start; w_data_start := 0;
-                        w_ext_attr := (perm * 65536) mod 2 ^ 32; w_large := o_large o |} in
+            let f := mk_wfile name o raw header_start in
             match local_header_chunks f with
             | Ok cs =>
                 match with_plain s2 (fun d => dev_write_chunks d cs) with
@@ -601,7 +610,7 @@ Section Writer.
   (* ---------- raw_copy_file_rename: the source entry is given by its record and its raw bytes *)
   Definition raw_copy (s : wstate) (src : zfd) (rawbytes : bytes) (name : bytes) : wstate * res unit :=
     let o := {| o_method := f_method src; o_level := None; o_time := f_time src;
-                o_perm := match unix_mode src with Some m => Some (N.land m 511) | None => None end;
+                o_perm := unix_mode src;                                   (* fix D18: the mode is kept unmasked *)
                 o_large := ZIP64_BYTES_THR <? N.max (f_csize src) (f_usize src); o_encrypt := None |} in
     match start_entry s name o (Some (f_crc src, f_csize src, f_usize src)) with
     | (s1, Ok _) =>
@@ -633,23 +642,60 @@ Section Writer.
     ++ [le32 CENTRAL_DIRECTORY_END_SIGNATURE; le16 0; le16 0; le16 (N.min nfiles ZIP64_ENTRY_THR); le16 (N.min nfiles ZIP64_ENTRY_THR);
         le32 (N.min central_size ZIP64_BYTES_THR); le32 (N.min central_start ZIP64_BYTES_THR); le16 (len comment mod 65536); comment].
 
+  (* write_central_and_footer: returns where the directory starts *)
+  Definition write_cd_footer (files : list wfile) (comment : bytes) (d : dev) : dev * res N :=
+    match dev_pos d with
+    | (d1, Ok central_start) =>
+        match write_central_all d1 files with
+        | (d2, Ok _) =>
+            match dev_pos d2 with
+            | (d3, Ok cend) =>
+                if cend <? central_start then (d3, Panic PArith) else
+                match dev_write_chunks d3 (end_records (N.of_nat (length files)) central_start (cend - central_start) comment) with
+                | (d4, Ok _) => (d4, Ok central_start)
+                | (d4, Err e) => (d4, Err e)
+                | (d4, Panic p) => (d4, Panic p)
+                end
+            | (d3, Err e) => (d3, Err e)
+            | (d3, Panic p) => (d3, Panic p)
+            end
+        | (d2, Err e) => (d2, Err e)
+        | (d2, Panic p) => (d2, Panic p)
+        end
+    | (d1, Err e) => (d1, Err e)
+    | (d1, Panic p) => (d1, Panic p)
+    end.
+
   Definition finalize (s : wstate) : wstate * res unit :=
     if 65535 <? len (ws_comment s) then (s, Err (EInvalid MTooLong)) else          (* fix D1 *)
     match finish_file s with
     | (s1, Ok _) =>
         with_plain s1 (fun d =>
-          match dev_pos d with
+          match write_cd_footer (ws_files s1) (ws_comment s1) d with
           | (d1, Ok central_start) =>
-              match write_central_all d1 (ws_files s1) with
-              | (d2, Ok _) =>
-                  match dev_pos d2 with
-                  | (d3, Ok cend) =>
-                      if cend <? central_start then (d3, Panic PArith) else
-                      dev_write_chunks d3 (end_records (N.of_nat (length (ws_files s1))) central_start (cend - central_start) (ws_comment s1))
+              match dev_pos d1 with
+              | (d2, Ok footer_end) =>
+                  match dev_seek_end d2 with
+                  | (d3, Ok sink_end) =>
+                      (* fix D19: stale bytes of an older, longer directory behind the end record: write the
+                         directory and end records again so that they end where the sink ends *)
+                      if footer_end <? sink_end then
+                        if footer_end <? central_start then (d3, Panic PArith) else
+                        match dev_seek d3 (sink_end - (footer_end - central_start)) with
+                        | (d4, Ok _) =>
+                            match write_cd_footer (ws_files s1) (ws_comment s1) d4 with
+                            | (d5, Ok _) => (d5, Ok tt)
+                            | (d5, Err e) => (d5, Err e)
+                            | (d5, Panic p) => (d5, Panic p)
+                            end
+                        | bad => bad
+                        end
+                      else (d3, Ok tt)
                   | (d3, Err e) => (d3, Err e)
                   | (d3, Panic p) => (d3, Panic p)
                   end
-              | bad => bad
+              | (d2, Err e) => (d2, Err e)
+              | (d2, Panic p) => (d2, Panic p)
               end
           | (d1, Err e) => (d1, Err e)
           | (d1, Panic p) => (d1, Panic p)
